@@ -23,7 +23,7 @@ let s_of_out (o : Store.sout) : string = match o with
   | Store.RPacket p -> "p=" ^ s_of_opt_packet p
   | Store.RAll ps -> "a=" ^ S.concat "/" (L.map s_of_packet ps)
 
-let run path =
+let run_mode exact path =
   let hists = Hashtbl.create 1024 in
   let bad = ref 0 and n = ref 0 and distinct = ref 0 in
   let seen = Hashtbl.create 4096 in
@@ -55,7 +55,7 @@ let run path =
       let (_, mouts) = Store.sess_run Store.session_new ops in
       let ms = L.map s_of_out mouts in
       (* C18 does not fix the listing order (C15 does): compare a= as sets *)
-      let canon o = if S.length o >= 2 && S.sub o 0 2 = "a=" then
+      let canon o = if (not exact) && S.length o >= 2 && S.sub o 0 2 = "a=" then
           "a=" ^ S.concat "/" (L.sort compare (split '/' (S.sub o 2 (S.length o - 2)))) else o in
       let isid o = S.length o >= 3 && S.sub o 0 3 = "id=" in
       let cm = L.map canon ms and ci = L.map canon outs in
@@ -70,4 +70,6 @@ let run path =
     | _ -> ()) (read_lines path);
   Printf.printf "done cases=%d diffs=%d distinct=%d\n" !n !bad !distinct
 
-let () = register "c18" run
+let () = register "c18" (run_mode false)
+(* C15: the listing order itself is compared (first-save order) *)
+let () = register "c15store" (run_mode true)
